@@ -132,6 +132,9 @@ impl<const N: usize> St<N> {
     }
 
     fn data_name(&self, data: &[u8]) -> String {
+        if data.is_empty() {
+            return "0 0".to_string();
+        }
         match self.written.get(&(data.len(), crc32c(data))) {
             Some(seed) if gen_data(*seed, data.len()) == data => format!("{} {}", data.len(), seed),
             _ => format!("{} ?{:08x}", data.len(), crc32c(data)),
